@@ -5,50 +5,209 @@ open Utv.Conv Utv.Conv.Outcome
 open Utv.Py (FloatV DecV NumV Q)
 attribute [local irreducible] bracketed pyStrip splitFirstSep pyLower removeAll strContains endsWith startsWith rstripChar stripL
 
-/-! ## (3) no_explicit_cast: conversion within the primitive group -/
+/-! ## spec vocabulary: exact integer value of a number (independent of the converters) -/
+
+/-- the integer a float `m·2^e` equals, if it has no fractional part -/
+def exactIntF : FloatV → Option Int
+  | .fin m e =>
+    if e ≥ 0 then some (m * 2 ^ e.toNat)
+    else if m % (2 ^ (-e).toNat) = 0 then some (m / 2 ^ (-e).toNat) else none
+  | _ => none
+
+/-- the integer a Decimal `±c·10^e` equals, if it has no fractional part -/
+def exactIntD : DecV → Option Int
+  | .fin s c e =>
+    let z : Int := if s then -(c : Int) else c
+    if e ≥ 0 then some (z * 10 ^ e.toNat)
+    else if z % (10 ^ (-e).toNat) = 0 then some (z / 10 ^ (-e).toNat) else none
+  | _ => none
+
+/-- the integer a number equals, if it is integral -/
+def exactInt? : V → Option Int
+  | .bool b => some (if b then 1 else 0)
+  | .int _ i => some i
+  | .float _ f => exactIntF f
+  | .dec _ d => exactIntD d
+  | _ => none
+
+theorem Qeq_two (m e n : Int) (h : Q.eq ⟨m, e, 0⟩ ⟨n, 0, 0⟩ = true) : exactIntF (.fin m e) = some n := by
+  simp only [Q.eq, Q.scaled] at h
+  by_cases he : e ≥ 0
+  · have h1 : min e 0 = 0 := by omega
+    simp [h1] at h
+    simp [exactIntF, he, h]
+  · have h1 : min e 0 = e := by omega
+    simp [h1] at h
+    have hk : (2 : Int) ^ (-e).toNat ≠ 0 := Int.pow_ne_zero (by decide)
+    subst h
+    simp [exactIntF, he, Int.mul_emod_left, Int.mul_ediv_cancel _ hk]
+
+theorem Qeq_ten (s : Bool) (c : Nat) (e n : Int)
+    (h : Q.eq ⟨if s then -(c : Int) else c, 0, e⟩ ⟨n, 0, 0⟩ = true) : exactIntD (.fin s c e) = some n := by
+  simp only [Q.eq, Q.scaled] at h
+  by_cases he : e ≥ 0
+  · have h1 : min e 0 = 0 := by omega
+    simp [h1] at h
+    simp [exactIntD, he, h]
+  · have h1 : min e 0 = e := by omega
+    simp [h1] at h
+    have hk : (10 : Int) ^ (-e).toNat ≠ 0 := Int.pow_ne_zero (by decide)
+    simp only [exactIntD, he, if_false]
+    rw [h]
+    simp [Int.mul_emod_left, Int.mul_ediv_cancel _ hk]
+
+/-! ## (3) no_explicit_cast: the PROPERTY's table — six primitive groups and two documented exceptions -/
+
+/-- the primitive groups of docs/en/references/options.md: null / boolean (0, 1, True, False) / number
+(int, float, Decimal, …) / string (str, bytes, bytearray, memoryview) / array (list, tuple, set, …) / object -/
+inductive Group where
+  | null | boolean | number | string | array | object
+  deriving DecidableEq, Repr
+
+def valueInGroup (g : Group) (v : V) : Bool :=
+  match g, v with
+  | .null, .none => true
+  | .boolean, .bool _ => true
+  | .boolean, .int _ i => i == 0 || i == 1
+  | .number, .int _ _ => true
+  | .number, .float _ _ => true
+  | .number, .dec _ _ => true
+  | .number, .complex _ _ => true
+  | .string, .str _ _ => true
+  | .string, .bytes _ _ _ => true
+  | .array, .seq _ _ _ => true
+  | .object, .dict _ _ => true
+  | _, _ => false
+
+/-- the group a converter's target belongs to; the date/time types, UUID, Enum classes have none -/
+def targetGroup : Conv → Option Group
+  | .null => some .null
+  | .bool => some .boolean
+  | .int => some .number
+  | .float => some .number
+  | .decimal => some .number
+  | .complex => some .number
+  | .str => some .string
+  | .bytes => some .string
+  | .array => some .array
+  | .iter => some .array
+  | .dict => some .object
+  | .mapping => some .object
+  | _ => none
+
+def inGroup (cv : Conv) (v : V) : Bool :=
+  match targetGroup cv with
+  | some g => valueInGroup g v
+  | none => false
+
+/-- the property's documented exceptions: Decimal from str; date/time types from their string and timestamp forms -/
+def docException (cv : Conv) (v : V) : Bool :=
+  match cv with
+  | .decimal => valueInGroup .string v
+  | .date => valueInGroup .string v || valueInGroup .number v
+  | .datetime => valueInGroup .string v || valueInGroup .number v
+  | .timedelta => valueInGroup .string v || valueInGroup .number v
+  | .time => valueInGroup .string v
+  | _ => false
+
+/-- a float / Decimal / complex whose value is the integer `n` (via `exactIntF/D`, not via the converter's own test) -/
+def numValueIs (v : V) (n : Int) : Bool :=
+  match v with
+  | .float _ f => exactIntF f == some n
+  | .dec _ d => exactIntD d == some n
+  | .complex re im => exactIntF im == some 0 && exactIntF re == some n
+  | _ => false
+
+/-- a float / Decimal / complex whose value is 0 or 1 -/
+def isZeroOneValue (v : V) : Bool := numValueIs v 0 || numValueIs v 1
+
+/-- what the unchanged code admits under no_explicit_cast beyond the property's table (each one a listed finding,
+findings.d/C12.json; the test suite expects all of them) -/
+inductive Deviation where
+  | boolAsNumber      -- True / False converted as the ints 1 / 0 (to int, float, Decimal, complex, and as a timestamp)
+  | zeroOneLike       -- 1.0, Decimal('0'), (1+0j) → bool
+  | temporalCross     -- datetime → date / time, date → datetime / time
+  | uuidFromString    -- str / bytes → UUID
+  | complexFromStr    -- str / bytes → complex
+  deriving DecidableEq, Repr
+
+def isDateLike : V → Bool
+  | .date _ _ => true
+  | .datetime _ _ _ => true
+  | _ => false
+
+def deviation (cv : Conv) (v : V) : Option Deviation :=
+  match cv, v with
+  | .int, .bool _ => some .boolAsNumber
+  | .float, .bool _ => some .boolAsNumber
+  | .decimal, .bool _ => some .boolAsNumber
+  | .complex, .bool _ => some .boolAsNumber
+  | .date, .bool _ => some .boolAsNumber
+  | .datetime, .bool _ => some .boolAsNumber
+  | .timedelta, .bool _ => some .boolAsNumber
+  | .bool, v => if isZeroOneValue v then some .zeroOneLike else none
+  | .date, v => if isDateLike v then some .temporalCross else none
+  | .datetime, v => if isDateLike v then some .temporalCross else none
+  | .time, v => if isDateLike v then some .temporalCross else none
+  | .uuid, v => if valueInGroup .string v then some .uuidFromString else none
+  | .complex, v => if valueInGroup .string v then some .complexFromStr else none
+  | _, _ => none
+
+/-- known defect `complex-from-str-under-nec` -/
+def KnownDefect.complexFromStr (cv : Conv) (v : V) : Bool := deviation cv v == some .complexFromStr
+
+/-- the verdict the property allows for a conversion `v ↦ r` by converter `cv` under no_explicit_cast:
+the value passes through unchanged, or it lies in the target's primitive group, or a documented exception applies -/
+def GroupLaw (cv : Conv) (v r : V) : Prop :=
+  r = v ∨ inGroup cv v = true ∨ docException cv v = true
 
 def isNull : V → Bool | .none => true | _ => false
-/-- number group: int (incl. bool), float, Decimal, complex -/
-def isNumber (v : V) : Bool :=
-  isInst v .int || isInst v .float || isInst v .decimal || (match v with | .complex _ _ => true | _ => false)
-/-- string group: str, bytes, bytearray, memoryview -/
 def isString : V → Bool | .str _ _ => true | .bytes _ _ _ => true | _ => false
-/-- array group -/
 def isArray : V → Bool | .seq _ _ _ => true | _ => false
-/-- object group -/
 def isObject : V → Bool | .dict _ _ => true | _ => false
 def isTemporal : V → Bool | .date _ _ => true | .datetime _ _ _ => true | .time _ _ => true | .delta _ _ => true | _ => false
 def isUuid : V → Bool | .uuid _ _ => true | _ => false
-/-- boolean group: True, False and the numbers 0 and 1 -/
-def okTrue : Outcome Bool → Bool | .ok true => true | _ => false
-def isBoolLike (v : V) : Bool :=
-  (match v with | .bool _ => true | _ => false) || okTrue (eqSmall v 1) || okTrue (eqSmall v 0)
+/-- int (incl. bool), float, Decimal, complex -/
+def isNumber (v : V) : Bool :=
+  isInst v .int || isInst v .float || isInst v .decimal || (match v with | .complex _ _ => true | _ => false)
 
-/-- the group table with the documented exceptions: `Decimal` also from the string group; the date/time types
-from the string group and from numbers (timestamps); `UUID` has no native form: string group -/
-def GroupOK (cv : Conv) (v : V) : Bool :=
-  match cv with
-  | .null => isNull v
-  | .bool => isBoolLike v
-  | .int => isNumber v
-  | .float => isNumber v
-  | .decimal => isNumber v || isString v
-  | .complex => isNumber v
-  | .str => isString v
-  | .bytes => isString v
-  | .array => isArray v
-  | .dict => isObject v
-  | .mapping => isObject v
-  | .iter => isArray v || isString v || isObject v      -- abstract classes pass their instances through
-  | .date => isTemporal v || isNumber v || isString v
-  | .datetime => isTemporal v || isNumber v || isString v
-  | .timedelta => isTemporal v || isNumber v || isString v
-  | .time => isTemporal v || isString v
-  | .uuid => isUuid v || isString v
-  | .enum => true
-
-/-- known defect `complex-from-str-under-nec`: `to_complex` takes str / bytes under no_explicit_cast -/
-def KnownDefect.complexFromStr (cv : Conv) (v : V) : Bool := cv == .complex && isString v
+/-- `data == n` holds only for a bool, the int `n`, or a float / Decimal / complex of value `n` -/
+theorem eqSmall_spec (v : V) (n : Int) (h : eqSmall v n = .ok true) :
+    (∃ b, v = .bool b ∧ (if b then 1 else 0) = n) ∨ (∃ c, v = .int c n) ∨ numValueIs v n = true := by
+  cases v <;> simp [eqSmall, num?] at h
+  case bool b =>
+    left
+    simp [NumV.eq, Q.eq, Q.scaled] at h
+    exact ⟨b, rfl, h⟩
+  case int c i =>
+    right; left
+    simp [NumV.eq, Q.eq, Q.scaled] at h
+    exact ⟨c, by rw [h]⟩
+  case float c f =>
+    right; right
+    cases f <;> simp [NumV.eq] at h
+    rename_i m e
+    simp [numValueIs, Qeq_two m e n h]
+  case dec c d =>
+    right; right
+    cases d with
+    | fin s co e =>
+      simp [NumV.eq] at h
+      simp [numValueIs, Qeq_ten s co e n h]
+    | inf s => simp [NumV.eq] at h
+    | nan s => cases s <;> simp [NumV.eq] at h
+  case complex re im =>
+    right; right
+    obtain ⟨hz, hre⟩ := h
+    have him : exactIntF im = some 0 := by
+      cases im <;> simp [fZero] at hz
+      subst hz
+      simp only [exactIntF]
+      split <;> simp
+    cases re <;> simp at hre
+    rename_i m e
+    simp [NumV.eq] at hre
+    simp [numValueIs, Qeq_two m e n hre, him]
 
 theorem isInstT_isInst (v : V) (b : Base) (c : Nat) (h : isInstT v (.cls b c) = true) : isInst v b = true := by
   cases c with
@@ -108,23 +267,54 @@ theorem fromByteLike_str_string (P : Prims) (f : Flags) (v : V) (c : Nat) (s : S
 
 theorem toDatetime_nec_group (P : Prims) (E : Env) (c : Nat) (df : Bool) (v r : V)
     (h : toDatetime P E ⟨true, false⟩ c df v = .ok r) :
-    (isTemporal v || isNumber v || isString v) = true := by
+    r = v ∨ isDateLike v = true ∨ isNumber v = true ∨ isString v = true := by
   unfold toDatetime at h
   split at h
-  · rename_i hi
-    simp [isInst_temporal v _ (Or.inl rfl) (isInstT_isInst v _ _ hi)]
+  · left; simpa using h.symm
   · split at h
-    · simp [isTemporal]
-    · simp [isTemporal]
+    · right; left; rfl
+    · right; left; rfl
     · simp only [attemptFrom, if_true, Outcome.ok_bind] at h
       split at h
       · rename_i hi
         simp at hi
+        right; right; left
         rcases hi with (hi | hi) | hi <;> simp [isNumber, hi]
       · obtain ⟨d2, hd2, h3⟩ := Outcome.bind_eq_ok.mp h
         split at h3
-        · rename_i c' s; simp [fromByteLike_str_string P _ v c' s hd2]
+        · rename_i c' s; right; right; right; exact fromByteLike_str_string P _ v c' s hd2
         all_goals simp at h3
+
+theorem toDatetime_nec_kind (P : Prims) (E : Env) (c : Nat) (df : Bool) (v r : V)
+    (h : toDatetime P E ⟨true, false⟩ c df v = .ok r) :
+    isDateLike v = true ∨ isNumber v = true ∨ isString v = true := by
+  unfold toDatetime at h
+  split at h
+  · rename_i hi
+    left
+    have := isInstT_isInst v _ _ hi
+    cases v <;> simp [isInst, V.cls?, Base.sub] at this <;> first | rfl | (rename_i k _ _; cases k <;> simp [BytesK.base, SeqK.base] at this)
+  · split at h
+    · left; rfl
+    · left; rfl
+    · simp only [attemptFrom, if_true, Outcome.ok_bind] at h
+      split at h
+      · rename_i hi
+        simp at hi
+        right; left
+        rcases hi with (hi | hi) | hi <;> simp [isNumber, hi]
+      · obtain ⟨d2, hd2, h3⟩ := Outcome.bind_eq_ok.mp h
+        split at h3
+        · rename_i c' s; right; right; exact fromByteLike_str_string P _ v c' s hd2
+        all_goals simp at h3
+
+/-- a number in the code's sense (`isinstance` of int / float / Decimal, or complex) is a bool or in the number group -/
+theorem isNumber_cases (v : V) (h : isNumber v = true) : (∃ b, v = .bool b) ∨ valueInGroup .number v = true := by
+  cases v <;> simp [isNumber, isInst, V.cls?, Base.sub] at h <;> first | exact Or.inl ⟨_, rfl⟩ | (right; rfl) | skip
+  all_goals (rename_i k _ _; cases k <;> simp [BytesK.base, SeqK.base] at h)
+
+theorem isString_group (v : V) (h : isString v = true) : valueInGroup .string v = true := by
+  cases v <;> simp [isString] at h <;> rfl
 
 theorem isInstAbc_group (v : V) (a : Abc) (h : isInstAbc v a = true) :
     (isArray v || isString v || isObject v) = true := by
